@@ -147,6 +147,8 @@ is_6531_local (const char *start, const char *end)
                             return inverse(EEAV_LPART_UNQUOTED_FWS);
                     }
                 }
+                else if (ch != UTF8_END) /* invalid UTF-8 string */
+                    return inverse(EEAV_LPART_INVALID_UTF8);
             } break;
 #endif
             } /* switch (ch) */
